@@ -4,6 +4,9 @@
 use std::path::PathBuf;
 
 fn main() {
+    if std::env::var("CARGO_FEATURE_FIXTURE").is_err() {
+        return;
+    }
     let out = PathBuf::from(std::env::var("OUT_DIR").unwrap());
     let src = PathBuf::from(std::env::var("CARGO_MANIFEST_DIR").unwrap()).join("fixture");
     let fds = protox::compile([src.join("demo.proto")], [&src]).unwrap();
